@@ -158,8 +158,16 @@ def native_replay(plan, j, inputs, rdir):
     else:
         src = '#include "vf_native.h"\n#include "types.h"\n'
         src += ''.join('VF_REPLAY_VALUE(%s, %s)\n' % (k, v) for k, v in inputs.items() if v is not None)
-        for h in u.harness:
-            hp = os.path.join(u.dir, h) if h in plan.generated else os.path.join(pdir, h)
+        hps = [os.path.join(u.dir, h) if h in plan.generated else os.path.join(pdir, h) for h in u.harness]
+        # the harness file holds the harnesses of all jobs of the unit: inputs of the other ones get a dummy value
+        others = set()
+        for hp in hps:
+            try:
+                others |= set(re.findall(r'VF_IN\(\s*[^,()]+,\s*(\w+)\s*\)', open(hp).read()))
+            except OSError:
+                pass
+        src += ''.join('VF_REPLAY_VALUE(%s, 0)\n' % k for k in sorted(others) if inputs.get(k) is None)
+        for hp in hps:
             src += '#include "%s"\n' % hp
         src += 'int main(void){ %s(); if (!vf_native_failed) printf("NATIVE-OK: all assertions hold on this input\\n"); return vf_native_failed; }\n' % j.entry
     mainc = os.path.join(rdir, 'replay_main.c')
